@@ -95,4 +95,51 @@ theorem encode_not_valid : ∀ l r : Bool, Gen.encode_not l r = true := by decid
 theorem encode_rules_complete :
     Gen.ruleNames = ["encode_conj", "encode_disj", "encode_imp", "encode_eq", "encode_not"] := by decide
 
+/-- The clause groups the model's `tseitin` emits are literally the right-hand sides of the rules
+`tseitin.encode` rewrites with (as `library/sat.json` states them now). -/
+theorem clauses_match_rules :
+    (∀ l r, clausesNot l r = Gen.encode_not_cnf l r) ∧
+    (∀ l r1 r2, clausesAnd l r1 r2 = Gen.encode_conj_cnf l r1 r2) ∧
+    (∀ l r1 r2, clausesOr l r1 r2 = Gen.encode_disj_cnf l r1 r2) ∧
+    (∀ l r1 r2, clausesImp l r1 r2 = Gen.encode_imp_cnf l r1 r2) ∧
+    (∀ l r1 r2, clausesIff l r1 r2 = Gen.encode_eq_cnf l r1 r2) :=
+  ⟨fun _ _ => rfl, fun _ _ _ => rfl, fun _ _ _ => rfl, fun _ _ _ => rfl, fun _ _ _ => rfl⟩
+
+/-- Each rule's clause list says exactly that `l` is the connective applied to `r1`, `r2`
+(for arbitrary, not necessarily distinct, variables). -/
+theorem encode_cnf_meaning (σ : Nat → Bool) :
+    (∀ l r, Sat σ (Gen.encode_not_cnf l r) ↔ σ l = !(σ r)) ∧
+    (∀ l r1 r2, Sat σ (Gen.encode_conj_cnf l r1 r2) ↔ σ l = (σ r1 && σ r2)) ∧
+    (∀ l r1 r2, Sat σ (Gen.encode_disj_cnf l r1 r2) ↔ σ l = (σ r1 || σ r2)) ∧
+    (∀ l r1 r2, Sat σ (Gen.encode_imp_cnf l r1 r2) ↔ σ l = (!(σ r1) || σ r2)) ∧
+    (∀ l r1 r2, Sat σ (Gen.encode_eq_cnf l r1 r2) ↔ σ l = (σ r1 == σ r2)) :=
+  ⟨sat_clausesNot σ, sat_clausesAnd σ, sat_clausesOr σ, sat_clausesImp σ, sat_clausesIff σ⟩
+
+example : Sat (fun n => n == 2) (Gen.encode_conj_cnf 0 1 2) :=
+  ((encode_cnf_meaning _).2.1 0 1 2).mpr rfl
+
+/-! ### Tseitin encoding -/
+
+/-- The CNF of `tseitin.encode(f)` (one variable per distinct subterm, the clauses of each
+subterm's rule, the unit clause of the top variable) is satisfiable iff `f` is. -/
+theorem tseitin_equisat (f : Form) : (∃ σ, Sat σ (tseitin f)) ↔ (∃ ρ, Form.eval ρ f = true) :=
+  tseitinWith_equisat fun _ => mem_dedupF
+
+/-- ... whatever order `term_ord.sorted_terms` numbers the subterms in. -/
+theorem tseitin_equisat_any_order (f : Form) (o : List Form) :
+    (∃ σ, Sat σ (tseitinOrd f o)) ↔ (∃ ρ, Form.eval ρ f = true) :=
+  tseitinOrd_equisat f o
+
+/-- `(a ∧ ¬a) ∨ b`: five variables, nine clauses; satisfiable because the formula is. -/
+def exForm : Form := .or (.and (.atom 0) (.not (.atom 0))) (.atom 1)
+example : tseitin exForm =
+    [[(2, true), (1, true)], [(2, false), (1, false)],
+     [(3, false), (1, true)], [(3, false), (2, true)], [(1, false), (2, false), (3, true)],
+     [(5, false), (3, true), (4, true)], [(3, false), (5, true)], [(4, false), (5, true)],
+     [(5, true)]] := by decide
+example : ∃ σ, Sat σ (tseitin exForm) :=
+  (tseitin_equisat exForm).mpr ⟨fun n => n == 1, by decide⟩
+example : ¬ ∃ σ, Sat σ (tseitin (.and (.atom 0) (.not (.atom 0)))) := by
+  rw [tseitin_equisat]; rintro ⟨ρ, h⟩; simp [Form.eval] at h
+
 end Holpy.C15
